@@ -16,6 +16,13 @@ pub fn blank(s: &str) -> bool {
 pub fn tag_alone(t: &str, span: (usize, usize)) -> bool {
     blank(&t[line_start(t, span.0)..span.0]) && blank(&t[span.1..line_end(t, span.1)])
 }
+/// Like `tag_alone`, but a CRLF line end counts as a line end (a single '\r' directly before
+/// the line break is allowed after the tag).
+pub fn tag_alone_crlf(t: &str, span: (usize, usize)) -> bool {
+    let after = &t[span.1..line_end(t, span.1)];
+    let after = after.strip_suffix('\r').unwrap_or(after);
+    blank(&t[line_start(t, span.0)..span.0]) && blank(after)
+}
 
 #[derive(Debug, Clone, PartialEq)]
 pub enum UnwrapGeom {
@@ -37,7 +44,7 @@ pub fn unwrap_geom(t: &str, e: &ElemInfo) -> UnwrapGeom {
         }
         return UnwrapGeom::NonCanonical;
     }
-    if !tag_alone(t, e.open) || !tag_alone(t, e.close) {
+    if !tag_alone_crlf(t, e.open) || !tag_alone_crlf(t, e.close) {
         return UnwrapGeom::NonCanonical;
     }
     UnwrapGeom::Canonical(lbs - 1)
